@@ -192,19 +192,30 @@ Definition g_lines (nodes : list nd) (flags : list nat) (acts : list act) (marke
          (map (fun m => match m with Some n => get nodes n d_line 0%N | None => 0%N end)
               (g_breaks (cfg_of nodes flags) visited)).
 
+(** The marker lines that a run over [acts] prints: the marker statement of a line is the node that
+    a line breakpoint on that line flags. *)
+Definition out_lines (nodes : list nd) (acts : list act) (markers : list N) : list N :=
+  let '(mflags, _, _) := y_place nodes markers [] in
+  let '(_, _, visited) := p_session replay_step (fuel_for acts) acts in
+  map (fun m => match m with Some n => get nodes n d_line 0%N | None => 0%N end)
+      (g_breaks (cfg_of nodes mflags) visited).
+
 Record session := {
   s_id : N;
   s_nodes : list nd;
   s_lines : list N; s_funcs : list N;
-  s_acts : list act;
+  s_acts : list act;            (* operations of a plain run whose closures were generated as in this session *)
+  s_plain_acts : list act;      (* operations of the plain run *)
   s_reqs : list N;
   s_markers : list N;
   (* observed on the implementation *)
   o_events : list N;           (* packed: reason, line, column *)
   o_flags : list N;            (* positions of the nodes with breakOnLine || breakOnCall *)
   o_valid_lines : list N; o_valid_funcs : list N;
+  o_out : list N;              (* marker lines printed by the debugged program, in order *)
   (* reference derived from the program's output *)
-  r_lines : list N;
+  r_lines : list N;            (* marker lines with a breakpoint that the plain run printed, in order *)
+  r_out : list N;              (* marker lines printed by the plain run, in order *)
   (* the harness's label: 1 = the tracker is exact wherever a breakpoint is involved (main stream),
      0 = it is not (region "mistrack"), 2 = not labelled (terminated session) *)
   s_exact : N
@@ -215,13 +226,15 @@ Definition session_ok_y (c : session) : bool :=
   same_setN (map N.of_nat flags) (o_flags c)
   && same_setN vl (o_valid_lines c) && same_setN vf (o_valid_funcs c)
   && list_eqb ev_eqb (y_events (s_nodes c) flags (s_acts c) (map mk_req (s_reqs c))) (map mk_event (o_events c))
+  && (N.eqb (s_exact c) 2 || list_eqb N.eqb (out_lines (s_nodes c) (s_acts c) (s_markers c)) (o_out c))
   && (N.eqb (s_exact c) 2
       || Bool.eqb (y_exact (s_nodes c) flags (s_acts c) (map mk_req (s_reqs c))) (N.eqb (s_exact c) 1)).
 
 Definition session_ok_g (c : session) : bool :=
   let '(flags, _, _) := y_place (s_nodes c) (s_lines c) (s_funcs c) in
-  N.eqb (s_exact c) 2 ||
-  list_eqb N.eqb (g_lines (s_nodes c) flags (s_acts c) (s_markers c)) (r_lines c).
+  list_eqb N.eqb (out_lines (s_nodes c) (s_plain_acts c) (s_markers c)) (r_out c)
+  && (N.eqb (s_exact c) 2
+      || list_eqb N.eqb (g_lines (s_nodes c) flags (s_plain_acts c) (s_markers c)) (r_lines c)).
 
 Definition c19_mis_y (cs : list session) : list N :=
   flat_map (fun c => if session_ok_y c then [] else [s_id c]) cs.
